@@ -435,7 +435,7 @@ theorem saved_data_is_everything_collected {n mx : Nat} {s : St} {d : D}
   rw [hok.2.2.1 x hx, ← hobs]
   exact collected_all h
 
-/-- While the final state is written every thread has exited: no step, run or hand-over is
+/-- While the final state is written every thread has exited (or was never started): no step, run or hand-over is
 possible any more, so the final values are settled (the clock keeps running; it is re-anchored
 by the next launch's load, `Props/C05.lean`). -/
 theorem final_values_settled {n mx : Nat} {qcap : Option Nat} {v0 : Vals} {s : St} {d : D}
@@ -457,8 +457,8 @@ theorem final_values_settled {n mx : Nat} {qcap : Option Nat} {v0 : Vals} {s : S
       have hin : th.inCb = none := by
         cases hc : th.inCb with
         | none => rfl
-        | some k => have := hT.2.1 (by simp [hc]); simp [hd, cbPc] at this
-      simp [hd, hin]
+        | some k => have := hT.2.1 (by simp [hc]); rcases hd with hd | hd <;> simp [hd, cbPc] at this
+      rcases hd with hd | hd <;> simp [hd, hin]
   rcases ha with rfl | rfl | rfl | ⟨i, rfl⟩ | rfl <;> simp [dstep, key]
 
 /-! ### Non-vacuity: a reachable product state inside a runtime save, with steps taken, samples both
